@@ -333,10 +333,11 @@ int do_comm_polling (struct timeval *timeout) {
 /*
  * Send a message to an interactive object.
  */
+static void queue_message (interactive_t * ip, char *data);
+
 void add_message (object_t * who, char *data) {
 
   interactive_t *ip;
-  char *cp;
 
   /* check destination of message */
   if (!who || (who->flags & O_DESTRUCTED) || !who->interactive ||
@@ -348,6 +349,21 @@ void add_message (object_t * who, char *data) {
     }
 
   ip = who->interactive;
+  queue_message (ip, data);
+
+  /* snoop handling. This is the last thing done here: receive_snoop() runs LPC code,
+   * which can destruct `who' (ip is freed and its socket closed then) or raise an error.
+   */
+  if (ip->snoop_by)
+    receive_snoop (data, ip->snoop_by->ob);
+}				/* add_message() */
+
+/*
+ * Put a message into the output buffer of a connection. No LPC code runs in here.
+ */
+static void queue_message (interactive_t * ip, char *data) {
+
+  char *cp;
 
   /* write message into ip->message_buf. */
   for (cp = data; *cp; cp++)
@@ -398,13 +414,21 @@ void add_message (object_t * who, char *data) {
 #endif
 
   add_message_calls++;
+}				/* queue_message() */
 
-  /* snoop handling. This is the last thing done here: receive_snoop() runs LPC code,
-   * which can destruct `who' (ip is freed and its socket closed then) or raise an error.
-   */
-  if (ip->snoop_by)
-    receive_snoop (data, ip->snoop_by->ob);
-}				/* add_message() */
+/*
+ * The driver's own words to the client: telnet option negotiation (while it parses the
+ * input, or when it changes the input mode) and the echo of a new line. They are for
+ * the client only: a snooper is not called with them. add_message() would run his
+ * receive_snoop() in the middle of copy_chars() or set_telnet_single_char(), and that
+ * LPC code can raise an error (the input parsed so far is lost, with the telnet state
+ * half way) or destruct the user (ip is freed under our feet).
+ */
+static void telnet_reply (interactive_t * ip, char *data) {
+  if (ip->iflags & (NET_DEAD | CLOSING))
+    return;
+  queue_message (ip, data);
+}
 
 
 /**
@@ -669,7 +693,7 @@ static size_t copy_chars (UCHAR* from, UCHAR* to, size_t count, interactive_t* i
                   *to++ = '\b';
                   *to++ = '\0';
                   opt_trace (TT_COMM|2, "TELNET new line sequence received.\n");
-                  add_message (ip->ob, "\r\n");
+                  telnet_reply (ip, "\r\n");
                 }
               else
                 {
@@ -743,7 +767,7 @@ static size_t copy_chars (UCHAR* from, UCHAR* to, size_t count, interactive_t* i
                              * LM_MODE (which violates RFC-1091), we just ignore
                              * them. --- Annihilator@ES2 [2002-05-07] */
                             /* set our preferred mode */
-                            add_message (ip->ob, telnet_sb_lm_mode);
+                            telnet_reply (ip, telnet_sb_lm_mode);
                             break;
                           }
                         break;
@@ -754,7 +778,7 @@ static size_t copy_chars (UCHAR* from, UCHAR* to, size_t count, interactive_t* i
 
                           /* We does very little on SLC for now, just ack
                            * anything client tells us. --- Annihilator@ES2 [2002-05-07] */
-                          add_message (ip->ob, telnet_sb_lm_slc);
+                          telnet_reply (ip, telnet_sb_lm_slc);
                           for (j = 2; j < ip->sb_pos - 3; j += 3)
                             {
                               if (ip->sb_buf[j] == 0
@@ -801,9 +825,9 @@ static size_t copy_chars (UCHAR* from, UCHAR* to, size_t count, interactive_t* i
                                       continue;
                                     }
                                 }
-                              add_message (ip->ob, slc);
+                              telnet_reply (ip, slc);
                             }
-                          add_message (ip->ob, telnet_se);
+                          telnet_reply (ip, telnet_se);
                           break;
                         }
                       }
@@ -850,16 +874,21 @@ static size_t copy_chars (UCHAR* from, UCHAR* to, size_t count, interactive_t* i
               break;
             case BREAK:	/* Send back a break character. */
               ip->state = TS_DATA;	/* two-byte command is complete */
-              add_message (ip->ob, telnet_break_response);
+              telnet_reply (ip, telnet_break_response);
               flush_message (ip);
               break;
             case IP:		/* Send back an interupt process character. */
               ip->state = TS_DATA;
-              add_message (ip->ob, telnet_interrupt_response);
+              telnet_reply (ip, telnet_interrupt_response);
               break;
             case AYT:		/* Are you there signal.  Yep we are. */
               ip->state = TS_DATA;
-              add_vmessage (ip->ob, "\n[%s-%s] \n", PACKAGE, VERSION);
+              {
+                char ayt[128];
+
+                snprintf (ayt, sizeof (ayt), "\n[%s-%s] \n", PACKAGE, VERSION);
+                telnet_reply (ip, ayt);
+              }
               break;
             case AO:		/* Abort output. Do a telnet sync operation. */
               ip->state = TS_DATA;
@@ -869,9 +898,7 @@ static size_t copy_chars (UCHAR* from, UCHAR* to, size_t count, interactive_t* i
                 flush_message (ip);
               if (ip->message_length > MESSAGE_BUF_SIZE - 2)
                 break;
-              add_message (ip->ob, telnet_abort_response);
-              if (!IP_VALID (ip, ob))
-                return 0; /* a snooper destructed the user */
+              telnet_reply (ip, telnet_abort_response);
               ip->out_of_band = ip->message_length; /* the DM is the last byte queued */
               flush_message (ip);
               break;
@@ -889,11 +916,11 @@ static size_t copy_chars (UCHAR* from, UCHAR* to, size_t count, interactive_t* i
           switch (from[i])
             {
             case TELOPT_SGA:
-              add_message (ip->ob, telnet_will_sga);
+              telnet_reply (ip, telnet_will_sga);
               flush_message (ip);
               break;
             case TELOPT_TM:
-              add_message (ip->ob, telnet_do_tm_response);
+              telnet_reply (ip, telnet_do_tm_response);
               flush_message (ip);
               break;
             }
@@ -915,7 +942,7 @@ static size_t copy_chars (UCHAR* from, UCHAR* to, size_t count, interactive_t* i
           switch (from[i])
             {
             case TELOPT_TTYPE:
-              add_message (ip->ob, telnet_term_query);
+              telnet_reply (ip, telnet_term_query);
               flush_message (ip);
               break;
             case TELOPT_NAWS:
@@ -926,12 +953,12 @@ static size_t copy_chars (UCHAR* from, UCHAR* to, size_t count, interactive_t* i
               if (!(ip->iflags & SINGLE_CHAR))
                 {
                   telnet_sb_lm_mode[4] = MODE_EDIT | MODE_TRAPSIG;
-                  add_message (ip->ob, telnet_sb_lm_mode);
+                  telnet_reply (ip, telnet_sb_lm_mode);
                   flush_message (ip);
                 }
               break;
             case TELOPT_SGA:
-              add_message (ip->ob, telnet_do_sga);
+              telnet_reply (ip, telnet_do_sga);
               flush_message (ip);
               break;
             }
@@ -952,7 +979,7 @@ static size_t copy_chars (UCHAR* from, UCHAR* to, size_t count, interactive_t* i
           switch (from[i])
             {
             case TELOPT_SGA:
-              add_message (ip->ob, telnet_wont_sga); /* acknowledged, won't send go ahead */
+              telnet_reply (ip, telnet_wont_sga); /* acknowledged, won't send go ahead */
               flush_message (ip);
               break;
             }
@@ -1034,15 +1061,15 @@ static void set_telnet_single_char (interactive_t * ip, int single) {
         telnet_sb_lm_mode[4] = MODE_TRAPSIG;
       else
         telnet_sb_lm_mode[4] = MODE_TRAPSIG | MODE_EDIT;
-      add_message (ip->ob, telnet_sb_lm_mode);
+      telnet_reply (ip, telnet_sb_lm_mode);
       flush_message (ip);
       return;
     }
 
   if (single)
-    add_message (ip->ob, telnet_will_sga);
+    telnet_reply (ip, telnet_will_sga);
   else
-    add_message (ip->ob, telnet_wont_sga);
+    telnet_reply (ip, telnet_wont_sga);
   flush_message (ip);
 }
 
@@ -2066,12 +2093,6 @@ static void get_user_data (interactive_t* ip, io_event_t* evt) {
            * is a newline, the character before ip->text_end will be null.
            */
           ip->text[ip->text_end] = '\0';
-          /*
-           * handle snooping - snooper does not see type-ahead. seems like
-           * that would be very inefficient, for little functional gain.
-           */
-          if (ip->snoop_by && !(ip->iflags & NOECHO))
-            receive_snoop (buf, ip->snoop_by->ob);
 
           /*
            * set flag if new data completes command.
@@ -2081,7 +2102,16 @@ static void get_user_data (interactive_t* ip, io_event_t* evt) {
               opt_trace (TT_COMM|3, "Command available in buffer for fd %d\n", ip->fd);
               ip->iflags |= CMD_IN_BUF;
             }
-          break;
+          /*
+           * handle snooping - snooper does not see type-ahead. seems like
+           * that would be very inefficient, for little functional gain.
+           * This is the last thing done with ip: receive_snoop() runs LPC code, which
+           * can raise an error (the command is flagged by now and will be executed) or
+           * destruct the user (ip is freed then).
+           */
+          if (ip->snoop_by && !(ip->iflags & NOECHO))
+            receive_snoop (buf, ip->snoop_by->ob);
+          return;
 
         case PORT_ASCII:
           {
